@@ -23,7 +23,7 @@ PROPS = {
     ),
     "C15": dict(
         family="codec",
-        theorems=T("C15", "hexDecodeAlloc_accepts_iff", "hexDecodeInto_spec", "hexDecodeInto_writes_le", "hexDecode_null_query",
+        theorems=T("C15", "translated_decoders_are_model", "translated_decoders_never_overrun", "hexDecodeAlloc_accepts_iff", "hexDecodeInto_spec", "hexDecodeInto_writes_le", "hexDecode_null_query",
                    "b64DecodeAlloc_accepts_iff", "b64DecodeInto_spec", "b64DecodeInto_writes_le", "b64Decode_null_query",
                    "sizeQuery_eq_decodedLength", "decoders_never_oob"),
         rule="exhaustive: every 4-character final group over a critical alphabet (quick 20 symbols, thorough all 64 + 13 odd symbols incl. '=', NUL, "
@@ -153,5 +153,5 @@ MANIFEST_TEXT = {
              "mutated encodings under ASan with exact-size output blocks.",
         design_ref="DESIGN.md section 3, C14/C15",
         note="Trusted as C14. The machine-level 'no write outside the buffer' is observed by ASan/canaries; the bound on the number of stores is the theorem.",
-        technique="Lean 4 proof over a hand model + differential correspondence under ASan + regenerated tables"),
+        technique="Lean 4 proof over a hand model; decoders translated from the C++ on every run with bridge theorems generated = model and the overrun bound stated on the translated code; differential correspondence under ASan + regenerated tables"),
 }
